@@ -15,6 +15,9 @@ fn digest(dir: &Path, rel: &str, out: &mut Vec<(String, String)>) {
         if p.is_dir() {
             out.push((format!("{name}/"), String::new()));
             digest(&p, &format!("{name}/"), out);
+        } else if p.metadata().map(|m| { use std::os::unix::fs::FileTypeExt; let t = m.file_type(); t.is_fifo() || t.is_socket() || t.is_char_device() || t.is_block_device() }).unwrap_or(false) {
+            // a FIFO, a socket, a device: named, never opened (reading a FIFO would block for ever)
+            out.push((name, "<not a regular file>".to_string()));
         } else {
             out.push((name, vpharness::hex(&std::fs::read(&p).unwrap_or_default())));
         }
